@@ -554,16 +554,28 @@ fn build_function(function: &Function) -> Result<proc_macro2::TokenStream, anyho
         })
         .transpose()?;
 
+    // The local holding the function pointer must not shadow a parameter (a parameter
+    // named `f` would otherwise be passed the pointer itself).
+    let mut pointer_name = "f".to_string();
+    while function
+        .arguments
+        .iter()
+        .any(|a| matches!(a, Argument::Field(name, _) if *name == pointer_name))
+    {
+        pointer_name.push('_');
+    }
+    let f = str_to_ident(&pointer_name);
+
     let calling_convention = function.calling_convention.as_str();
     let function_body = match &function.body {
         FunctionBody::Address { address } => {
             let address = hex_literal(*address);
             quote! {
-                let f:
+                let #f:
                     unsafe extern #calling_convention
                     fn(#(#lambda_arguments),*) #return_type
                 = ::std::mem::transmute(#address as usize);
-                f(#(#call_arguments),*)
+                #f(#(#call_arguments),*)
             }
         }
         FunctionBody::Field {
@@ -579,8 +591,8 @@ fn build_function(function: &Function) -> Result<proc_macro2::TokenStream, anyho
         FunctionBody::Vftable { function_name } => {
             let function_to_call_name = str_to_ident(function_name);
             quote! {
-                let f = std::ptr::addr_of!((*self.vftable()).#function_to_call_name).read();
-                f(#(#call_arguments),*)
+                let #f = std::ptr::addr_of!((*self.vftable()).#function_to_call_name).read();
+                #f(#(#call_arguments),*)
             }
         }
     };
